@@ -14,11 +14,37 @@ namespace ThriftVerif.Proto
 
 theorem modulePath_iff (root f p : Str) :
     modulePath root f = some p ↔
-      ∃ pkg, rel root (trimSuffix f thriftSuffix) = some pkg ∧ p = join2 pkg (base pkg ++ goSuffix) := by
+      ∃ pkg, rel root (trimSuffix f thriftSuffix) = some pkg ∧ escapesRoot pkg = false ∧
+        p = join2 pkg (base pkg ++ goSuffix) := by
   unfold modulePath
   cases h : rel root (trimSuffix f thriftSuffix) with
   | none => simp
-  | some pkg => simp [eq_comm]
+  | some pkg =>
+    simp only [Option.some.injEq, exists_eq_left']
+    constructor
+    · intro hm
+      split at hm
+      · exact absurd hm (by simp)
+      · rename_i he
+        exact ⟨by simpa using he, (Option.some.inj hm).symm⟩
+    · rintro ⟨he, rfl⟩
+      simp [he]
+
+/-- a package path without ".." component is not refused by `RelativePackage`. -/
+theorem escapesRoot_false_of_no_dotdot (pkg : Str) (h : ∀ c ∈ splitSlash pkg, c ≠ dotdot) :
+    escapesRoot pkg = false := by
+  cases he : escapesRoot pkg with
+  | false => rfl
+  | true =>
+    exfalso
+    simp only [escapesRoot, Bool.or_eq_true, beq_iff_eq] at he
+    rcases he with he | he
+    · subst he; exact h dotdot (by decide) rfl
+    · rw [hasPrefix, List.isPrefixOf_iff_prefix] at he
+      obtain ⟨r, rfl⟩ := he
+      have : splitSlash (dotdot ++ ['/'] ++ r) = splitSlash dotdot ++ splitSlash r := by
+        rw [show dotdot ++ ['/'] ++ r = dotdot ++ '/' :: r by simp, splitSlash_append_slash]
+      exact h dotdot (by rw [this]; simp [show splitSlash dotdot = [dotdot] from by decide]) rfl
 
 /-! ### components of a cleaned path -/
 
@@ -224,7 +250,8 @@ theorem core_path_of_extends (root rest : Str) (ha : isAbs root = true) (hc : cl
       (∀ c ∈ splitSlash p, c ≠ dotdot) ∧
       ∀ out, isAbs out = true → within (clean out) (join2 out p) = true := by
   let pkg : Str := if comps rest = [] then dot else joinSlash (comps rest)
-  refine ⟨join2 pkg (base pkg ++ goSuffix), (modulePath_iff _ _ _).2 ⟨pkg, ?_, rfl⟩, ?_, ?_⟩
+  refine ⟨join2 pkg (base pkg ++ goSuffix), (modulePath_iff _ _ _).2 ⟨pkg, ?_,
+    escapesRoot_false_of_no_dotdot _ (comps_no_dotdot hr), rfl⟩, ?_, ?_⟩
   · rw [show root ++ '/' :: rest ++ thriftSuffix = (root ++ '/' :: rest) ++ thriftSuffix by simp,
       trimSuffix_append]
     exact rel_extends root rest ha hc hr
